@@ -159,6 +159,17 @@ CHECKS["C08"] = dict(
     ref="DESIGN.md 4/C08",
     note=NOTE_COMMON + "Outside: Arc.bbox for non-zero sweep (atan/tan candidate angles, theta/delta), tightness of cubic boxes.")
 
+CHECKS["C05"] = dict(
+    text="Real Arc.__init__ -> _svg_parameterize (also through Path('M.. A..') and relative 'a') with start, end, radii and rotation symbolic, all four flag combinations and "
+         "both radius-correction branches; the function's intermediate values are captured with sys.settrace and every SVG F.6.5/F.6.6 fact is proved as a lemma over "
+         "generalised intermediates: primed coordinates, radii scaled by exactly sqrt(Lambda) iff Lambda > 1 (then the end points just fit), non-negative radicand, "
+         "c^2, sign of the root by fA=fS, centre, both end points on the ellipse, prx/pry = rotated semi-axes, sign(u x v) = sign(root), positive direction iff the "
+         "sweep flag, more than a half turn iff the large-arc flag; every point_at_t(tau) satisfies the ellipse equation; coincident end points draw nothing; zero "
+         "radii give the chord's points, length and ordered box; negative radii act as absolute values.",
+    ref="DESIGN.md 4/C05",
+    note=NOTE_COMMON + "Outside: Arc.get_start_t/t_at_point (arc.point(t) replaced by point_at_t + end points on the ellipse), the exact half-turn boundary, IEEE rounding "
+         "(the acos clamp is unreachable in exact reals). Some branch-feasibility queries time out: those paths are explored as unconfirmed and listed.")
+
 NOT_APPLICABLE = {
 }
 
